@@ -133,7 +133,10 @@ func (dsc *dataStoreCommand) dumpKey(l lane.Lane, keyName string) {
 	var _ = dsc.getSet
 	var _ = dsc.deleteSetMembers
 
-	sk, exists := dsc.getKeyObject(keyName)
+	dsc.lock()
+	defer dsc.unlock()
+
+	sk, exists := dsc.getKeyObjectUnlocked(keyName)
 	if !exists {
 		l.Tracef("key '%s' does not exist", keyName)
 	} else {
